@@ -23,6 +23,23 @@
 (*                          that field, needed by later owners / NS / MX names  *)
 (*                "pad"     a TXT record pushes a first occurrence to offset   *)
 (*                          16382..16385 (thorough: 16370..16395)              *)
+(*                "large"   messages with MANY records (g = the sub-family):   *)
+(*                   runs   one RRset / address pool: n consecutive records    *)
+(*                          with one owner (the question name or not), two     *)
+(*                          owners in turn, one owner in two letter cases; A,  *)
+(*                          NS to the owner itself, MX below the owner; n up   *)
+(*                          to and beyond the number of labels a name can have *)
+(*                          (126..129, 300): what accumulates over a run --    *)
+(*                          the pointer chain read for the last owner --       *)
+(*                   nest   names of 2..k labels, each the previous one with a *)
+(*                          label in front, then the longest again (k up to    *)
+(*                          127, the most a name can have): the deepest chain  *)
+(*                          a packer pointing at first occurrences builds      *)
+(*                   bulk   n records under a common 234-octet suffix: far     *)
+(*                          shorter compressed; uncompressed length 65534 ..   *)
+(*                          65537 (a TXT record sets it) and about 150 000,    *)
+(*                          compressed below 13 000                            *)
+(* ulen   the length of the message packed without compression (LenMsg)        *)
 EXTENDS Gen_WireRR, Compress
 
 CONSTANTS CMode, CShard, CNShards
@@ -110,6 +127,45 @@ PadMsg2(at) ==
          RR(Tail(NmBY), 33, 1, Ttl1h, [Priority |-> 1, Weight |-> 1, Port |-> 1, Target |-> NmBY]),
          RR(<< L(97), L(120) >>, 5, 1, Ttl1h, [Target |-> << L(99), L(121) >>]) >>, <<>>, <<>>)
 
+\* Mode "large".  cv = <<1, n, pat, ty>> runs | <<2, k>> nest | <<3, n, r>> bulk
+ExL    == <<69, 120>>
+PoolN == << <<80, 111, 111, 108>>, ExL >>                      \* Pool.Ex.
+PoolL == << <<112, 111, 111, 108>>, ExL >>                     \* pool.Ex.   (another name: case is preserved)
+OthN  == << L(111), ExL >>                                     \* o.Ex.
+RunOwner(pat, i) == IF pat = 3 /\ i % 2 = 0 THEN OthN ELSE IF pat = 4 /\ i % 2 = 0 THEN PoolL ELSE PoolN
+RunQ(pat) == IF pat = 1 THEN PoolN ELSE << L(113), ExL >>
+RunRR(pat, ty, i) ==
+  LET o == RunOwner(pat, i) IN
+  CASE ty = 1 -> RR(o, 1, 1, Ttl1h, [A |-> <<10, 0, i \div 256, i % 256>>])
+    [] ty = 2 -> RR(o, 2, 1, Ttl1h, [Ns |-> o])
+    [] ty = 3 -> RR(o, 15, 1, Ttl1h, [Preference |-> i % 7, Mx |-> << L(109) >> \o o])
+RunsMsg(n, pat, ty) ==
+  Msg(H0, << QOf(RunQ(pat), 1) >>, [i \in 1..n |-> RunRR(pat, ty, i)],
+      << RR(PoolN, 2, 1, Ttl1h, [Ns |-> << L(110) >> \o PoolN]) >>, <<>>)
+
+NestName(j) == [i \in 1..j |-> L(97)]
+NestMsg(k) == Msg(H0, << QOf(NestName(1), 1) >>, [i \in 1..k |-> A4(NestName(IF i < k THEN i + 1 ELSE k), 1)], <<>>, <<>>)
+
+BulkSuffix == << Rep(63, 98), Rep(63, 99), Rep(63, 100), Rep(40, 101) >>          \* 234 octets on the wire
+BulkOwner(i) == << << 97 + (i % 26), 97 + ((i \div 26) % 26), 97 + ((i \div 676) % 26) >> >> \o BulkSuffix
+BulkMsg(n, r) ==
+  Msg(H0, << QOf(BulkSuffix, 252) >>,
+      [i \in 1..n |-> RR(BulkOwner(i), 1, 1, Ttl1h, [A |-> <<10, 1, i \div 256, i % 256>>])]
+        \o (IF r = 0 THEN <<>> ELSE << RR(BulkSuffix, 16, 1, Ttl1h, [Txt |-> TxtOf(r)]) >>), <<>>, <<>>)
+BulkLen(n, r) == 250 + 252 * n + (IF r = 0 THEN 0 ELSE 244 + r)
+\* a transparent compressed form: every owner after the question is its first label (if any) and a pointer to offset 12
+BulkCLen(n, r) == 250 + 20 * n + (IF r = 0 THEN 0 ELSE 12 + r)
+
+LargeCases(tier) ==
+  LET ns == IF tier = 0 THEN {2, 126, 127, 128, 129, 300} ELSE (1..5) \cup (120..135) \cup {255, 256, 257, 300, 400, 1000}
+      ks == IF tier = 0 THEN {126, 127} ELSE {2, 3, 64, 100, 125, 126, 127}
+      bs == IF tier = 0 THEN { <<258, r>> : r \in 25..26 } \cup { <<400, 0>> }
+            ELSE { <<258, r>> : r \in 20..31 } \cup { <<259, 0>>, <<260, 0>>, <<400, 0>>, <<600, 0>>, <<1500, 0>>, <<1500, 300>> }
+  IN { c \in { <<1, n, pat, ty>> : n \in ns, pat \in 1..4, ty \in 1..3 } :
+           tier > 0 \/ (c[4] = 1 + ((c[2] + c[3]) % 3) /\ (c[2] < 200 \/ c[3] <= 2)) }
+     \cup { <<2, k>> : k \in ks } \cup { <<3, b[1], b[2]>> : b \in bs }
+LargeName == IF CMode # "large" THEN CMode ELSE IF cv[1] = 1 THEN "runs" ELSE IF cv[1] = 2 THEN "nest" ELSE "bulk"
+
 CInShard(x) == x % CNShards = CShard
 
 CInit ==
@@ -123,6 +179,8 @@ CInit ==
      \/ CMode = "first" /\ \E x \in 1..Len(NameTypes) : \E y \in 1..Len(NameIdx(NameTypes[x])) :
           cv = <<NameTypes[x], NameIdx(NameTypes[x])[y]>>
      \/ CMode = "pad" /\ \E at \in (IF Tier = 0 THEN 16382..16385 ELSE 16370..16395) : cv = <<at>>
+     \/ CMode = "large" /\ \E c \in LargeCases(Tier) : /\ CInShard(c[1] + 3 * c[2] + (IF Len(c) > 2 THEN 7 * c[3] ELSE 0) + (IF Len(c) > 3 THEN 13 * c[4] ELSE 0))
+                                                       /\ cv = c
 CNext == UNCHANGED <<v, cv>>
 
 CCase == CASE CMode = "family" -> FamilyMsg(cv[1], cv[2], cv[3], cv[4], cv[5], cv[6], cv[7])
@@ -130,6 +188,7 @@ CCase == CASE CMode = "family" -> FamilyMsg(cv[1], cv[2], cv[3], cv[4], cv[5], c
            [] CMode = "types"  -> TypesMsg2(cv[1], cv[2])
            [] CMode = "first"  -> FirstMsg(cv[1], cv[2])
            [] CMode = "pad"    -> PadMsg2(cv[1])
+           [] CMode = "large"  -> (IF cv[1] = 1 THEN RunsMsg(cv[2], cv[3], cv[4]) ELSE IF cv[1] = 2 THEN NestMsg(cv[2]) ELSE BulkMsg(cv[2], cv[3]))
 
 \* which names get the other spelling: none / the last record's owner / the first question
 Ddd(m) == LET d == IF CMode = "family" THEN cv[8] ELSE IF CMode = "multiq" THEN cv[5] ELSE 0 IN
@@ -140,10 +199,18 @@ SamePlan(s, m) ==
   Len(a) = Len(b) /\ \A i \in 1..Len(a) : a[i].n = b[i].n /\ a[i].c = b[i].c /\ a[i].off = b[i].off
 
 \* the specification checked on the case itself (a failure is a specification bug)
+\* "large": the reader is tried on the small cases (a name of 127 labels costs TLC's reader 127 x 127 steps, 127 such
+\* names a minute); on all of them the lengths are checked (the octets the harness packs are read by its walker and re-checked
+\* by the judge: Tiles, NameOK)
+LargeLight == CMode = "large" /\ (cv[1] = 2 \/ cv[2] > 300)
 SpecOK(m) ==
   LET bu == EncMsg(m)  su == StreamOf(bu) IN
   /\ WFMsg(m)
-  /\ su.ok /\ SamePlan(su.parts, m) /\ ValidCompressedStage(bu, bu) = "ok"
+  /\ ~LargeLight => su.ok /\ SamePlan(su.parts, m)
+  /\ CMode # "large" => ValidCompressedStage(bu, bu) = "ok"
+  /\ CMode = "large" => /\ ~LargeLight => PtrStage(su.parts, FALSE) = "ok"
+                        /\ Len(bu) = LenMsg(m)
+                        /\ cv[1] = 3 => LenMsg(m) = BulkLen(cv[2], cv[3]) /\ BulkCLen(cv[2], cv[3]) < 65535
   /\ CMode = "types" =>
        LET bh == HandCompressed(m)  st == ValidCompressedStage(bh, bu)
            es == FieldsOf(cv[1])
@@ -155,7 +222,7 @@ SpecOK(m) ==
 COut ==
   LET m == CCase IN
   /\ Assert(SpecOK(m), <<"specification fails on its own vector", CMode, cv>>)
-  /\ Emit([g |-> CMode, v |-> cv, msg |-> m, ddd |-> Ddd(m),
+  /\ Emit([g |-> LargeName, v |-> cv, msg |-> m, ddd |-> Ddd(m), ulen |-> LenMsg(m),
            hand |-> IF CMode = "types" THEN HandCompressed(m) ELSE <<>>,
-           implen |-> PackImplMsg(m, TRUE)])
+           implen |-> IF CMode = "large" /\ cv[1] = 3 THEN BulkCLen(cv[2], cv[3]) ELSE PackImplMsg(m, TRUE)])
 =============================================================================
